@@ -8,6 +8,7 @@ import (
 	"encoding/csv"
 	"fmt"
 	"io"
+	"math"
 	"strconv"
 	"strings"
 	"unicode"
@@ -501,6 +502,9 @@ func parseValue(strValue string, baseType basetype.BaseType, profileType profile
 			return value, fmt.Errorf("try")
 		}
 		scaledValue = scaleoffset.Discard(scaledValue, scale, offset)
+		if baseType != basetype.Float32 && baseType != basetype.Float64 {
+			scaledValue = math.Round(scaledValue)
+		}
 	}
 
 	switch baseType {
